@@ -303,7 +303,11 @@ func cmdCheck(args []string) int {
 		seen := map[string]int{}
 		for _, c := range res.Candidates {
 			key := c.Status.String() + "|" + firstLines(c.Msg, 1)
-			if seen[key] >= 2 {
+			if c.Status == interp.StHang {
+				// the function in which the bound was hit is incidental
+				key = "hang"
+			}
+			if seen[key] >= 2 && !(c.Status == interp.StHang && seen[key] < 4) {
 				continue
 			}
 			seen[key]++
